@@ -523,6 +523,7 @@ def gen_mapped(rng, tier):
 
 
 DEEP_KINDS = FLAT_KINDS + ["struct", "inline"]
+WRAPPER_KINDS = ["anyOf", "oneOf", "allOf", "notF"]
 HASHABLE_BAD = [None, 0, -3, "", "a", True, 7]
 
 
@@ -644,6 +645,7 @@ def gen_deep(rng, tier, n_classes):
             r = rng.random()
             want_struct = r < 0.3
             want_coll_of_struct = 0.3 <= r < 0.45
+            want_wrapper = 0.45 <= r < 0.6
             for _ in range(30):
                 # a collection nested >= 2 levels, a (top-level) nested structure (class reference or inline), or a
                 # collection of nested structures
@@ -652,9 +654,15 @@ def gen_deep(rng, tier, n_classes):
                 elif want_coll_of_struct:
                     fd = coll_of(rng.choice(["seqOf", "deque", "tupleOf", "mapVal"]),
                                  dg.class_decl(2, n_fields=rng.randint(1, 3), inline=rng.random() < 0.25))
+                elif want_wrapper:
+                    # AnyOf / OneOf / AllOf / NotField over scalars and collections, as a field or as the item of a collection
+                    dgw = gen.DeclGen(rng, max_depth=2, allow=FLAT_KINDS + WRAPPER_KINDS, p_constraint=0.5)
+                    fd = {"k": rng.choice(WRAPPER_KINDS), "fields": [dgw.decl(1) for _ in range(rng.randint(1, 3))]}
+                    if rng.random() < 0.4:
+                        fd = coll_of(rng.choice(["seqOf", "deque", "tupleOf", "mapVal"]), fd)
                 else:
                     fd = dg.decl(0)
-                if (want_struct or want_coll_of_struct or container_depth(fd) >= 2) and not inline_under_map(fd):
+                if (want_struct or want_coll_of_struct or want_wrapper or container_depth(fd) >= 2) and not inline_under_map(fd):
                     fields.append([nm, fd])
                     break
         if not fields:
